@@ -336,3 +336,35 @@ pub fn timed_case(thorough: bool) -> BoxedStrategy<Case> {
         })
         .boxed()
 }
+
+/// histories (task level) with a few `Contend` steps: an operation started while
+/// retain() holds the pool's lock inside its predicate
+pub fn contend_case(prop: &str) -> BoxedStrategy<Case> {
+    let mut p = profile_for(prop, false);
+    p.pause_pct = 0;
+    p.max_size = (2, 4);
+    p.fault_pct = 10;
+    p.steps = (3, 14);
+    p.w_return = 16;
+    p.w_get = 14;
+    p.w_close = 0;
+    p.nevers = false;
+    let inner = prop_oneof![
+        5 => any::<bool>().prop_map(|zero_wait| Inner::Get { zero_wait }),
+        3 => any::<u8>().prop_map(|h| Inner::Return { h }),
+        1 => any::<u8>().prop_map(|h| Inner::Take { h }),
+        1 => Just(Inner::Status),
+    ];
+    let contend = (pred(), inner).prop_map(|(pred, inner)| Step::Contend { pred, inner });
+    (case(p), prop::collection::vec((any::<u8>(), contend), 1..=2))
+        .prop_map(|(mut c, ins)| {
+            for (pos, st) in ins {
+                let i = ((pos as usize) * (c.steps.len() + 1)) >> 8;
+                // contention is only interesting once something is idle: bias towards the end
+                let i = i.max(c.steps.len() / 2);
+                c.steps.insert(i.min(c.steps.len()), st);
+            }
+            c
+        })
+        .boxed()
+}
